@@ -2,6 +2,7 @@
 package props
 
 import (
+	"time"
 	"os"
 	"strings"
 
@@ -278,3 +279,5 @@ func (st *StateTracker) Hooks(dbfile string, height func() uint32) *sqlw.Hooks {
 		st.PerHeight[height()] = h
 	}}
 }
+
+func timeUnix(s int64) time.Time { return time.Unix(s, 0) }
